@@ -284,3 +284,47 @@ Qed.
 
 Lemma convert_wiring m : w_serr (base_wiring m) = EErr <-> is_convert m = true.
 Proof. destruct m; simpl; split; congruence. Qed.
+
+(* ---------------------------------------------------------------- refutations *)
+Lemma panic_store_wf : wf panic_store.
+Proof.
+  apply pool_wf. constructor; [|constructor].
+  split; [reflexivity|split; [reflexivity|intros x Hx; discriminate]].
+Qed.
+
+Lemma convert_fwd_full_refuted :
+  ~ (forall xw st v m a st' r i t p u,
+        guarded_wiring xw -> wf st -> gv st v = Some i ->
+        w_serr (wt_of xw v m) = EErr -> a_err a = VF t true p u -> pure u = true ->
+        call xw st v m a = Some (st', r) ->
+        errors_is st' r (VF t true p u) = Ok true).
+Proof.
+  intros H.
+  pose proof double_convert_not_recorded as D.
+  destruct (call base_wiring panic_store (VG 0) MConvert (mkA [] [] [] e_one [] 0 [109%N]))
+    as [[st1 r1]|] eqn:C1; [|contradiction].
+  destruct (call base_wiring st1 r1 MConvert (mkA [] [] [] e_two [] 1 [109%N]))
+    as [[st2 r2]|] eqn:C2; [|contradiction].
+  destruct D as [D _].
+  assert (A1 : admissible panic_store (a_err (mkA [] [] [] e_one [] 0 [109%N]))).
+  { right; right. exists 1%N, true, 1%N, VNil. split; reflexivity. }
+  destruct (call_wf base_wiring _ _ _ _ _ _ base_wiring_guarded panic_store_wf A1 C1) as [W1 [[k G1] _]].
+  assert (Hw : w_serr (wt_of base_wiring r1 MConvert) = EErr) by (destruct r1; reflexivity).
+  pose proof (H base_wiring st1 r1 MConvert (mkA [] [] [] e_two [] 1 [109%N]) st2 r2 k 1%N 2%N VNil
+                base_wiring_guarded W1 G1 Hw eq_refl eq_refl C2) as H2.
+  unfold e_two in D. rewrite D in H2. discriminate.
+Qed.
+
+Lemma no_panic_orig_refuted :
+  exists st va vb, wf st /\ admissible st va /\ admissible st vb /\ errors_is_orig st va vb = Panic.
+Proof.
+  pose proof orig_panics as D.
+  destruct (call base_wiring panic_store (VG 0) MConvert panic_args) as [[st' r]|] eqn:C;
+    [|contradiction].
+  destruct D as [D _].
+  assert (A1 : admissible panic_store (a_err panic_args)).
+  { right; right. exists 4%N, false, 5%N, VNil. split; reflexivity. }
+  destruct (call_wf base_wiring _ _ _ _ _ _ base_wiring_guarded panic_store_wf A1 C) as [W1 [[k G1] _]].
+  exists st', r, slice_err. split; [exact W1|]. split; [right; left; eauto|]. split; [|exact D].
+  right; right. exists 4%N, false, 5%N, VNil. split; reflexivity.
+Qed.
